@@ -133,7 +133,7 @@ def correspondence(programs: list[str], impl: list[list[str]], model: list[list[
                 # (positional slice / key-based deduplication of rows that are not key-determined):
                 # only the shape of the answer is compared
                 a, b = re.sub(r"rows=\S+", "rows=*", a), re.sub(r"rows=\S+", "rows=*", b)
-            if toks[0] in ("join", "joinon", "joinp", "joinpl", "joinmax") and len(toks) >= 4 and root(toks[2]) == root(toks[3]):
+            if toks[0] in ("join", "joinon", "joinb", "joinp", "joinpl", "joinmax") and len(toks) >= 4 and root(toks[2]) == root(toks[3]):
                 # both operands are ONE Python object: whether the result "is" the left operand cannot be
                 # expressed by the model for operation nodes (object identity is tracked for markers and
                 # leaves only); the trees are still compared
